@@ -115,6 +115,26 @@ def gen_history(rng, tier):
     return u, hist
 
 
+def corpus_f3():
+    """corpus history (runs first, every time): the witness of known finding F3 — an extension attaches a tag and a
+    pronunciation to the lemma of a base entry and is then removed"""
+    def lex(lid, **kw):
+        d = {'id': lid, 'label': lid, 'language': 'en', 'email': 'e', 'license': 'l', 'version': '1', 'meta': None,
+             'entries': [], 'synsets': []}
+        d.update(kw)
+        return d
+    base = lex('fb', entries=[{'id': 'fb-e1', 'meta': None,
+                               'lemma': {'writtenForm': 'cat', 'partOfSpeech': 'n', 'tags': [{'text': 'sg', 'category': 'number'}]},
+                               'senses': [{'id': 'fb-e1-s1', 'synset': 'fb-s1', 'meta': None}]}],
+               synsets=[{'id': 'fb-s1', 'ili': '', 'partOfSpeech': 'n', 'meta': None}])
+    ext = lex('fx', extends={'id': 'fb', 'version': '1'},
+              entries=[{'id': 'fb-e1', 'external': True,
+                        'lemma': {'external': True, 'tags': [{'text': 'pl', 'category': 'number'}],
+                                  'pronunciations': [{'text': 'kat', 'notation': 'ipa'}]}}])
+    u = [('fb:1', {'lmf_version': '1.1', 'lexicons': [base]}), ('fx:1', {'lmf_version': '1.1', 'lexicons': [ext]})]
+    return u, [['add', 'fb:1'], ['add', 'fx:1'], ['remove', 'fx:1']]
+
+
 def strip_children(c):
     c = copy.deepcopy(c)
     kids = {}
@@ -150,7 +170,7 @@ def run(rep, tier, build, replay=None):
         return
     schema = build.probe['SCHEMA']
     n = 48 if tier == 'quick' else 700
-    cases = [gen_history(rng, tier) for _ in range(n)]
+    cases = [corpus_f3()] + [gen_history(rng, tier) for _ in range(n - 1)]
     hs = []
     fresh = []
     sims = []
